@@ -5,6 +5,7 @@ use crate::core::*;
 use crate::driver::Scenario;
 use crate::faults::FAULT_KEYS;
 use crate::scen_common::minimise;
+use crate::scen_slice::Focus;
 use serde_json::{json, Value as J};
 use std::collections::BTreeMap;
 
@@ -97,8 +98,218 @@ impl Scenario for C07 {
     }
 }
 
+// ------------------------------------------------------------------------------------------ C08
+pub struct C08;
+impl Scenario for C08 {
+    fn prop(&self) -> &'static str {
+        "C08"
+    }
+    fn runs(&self, tier: Tier) -> u64 {
+        match tier {
+            Tier::Quick => 250_000,
+            Tier::Thorough => 25_000_000,
+        }
+    }
+    fn log_runs(&self, tier: Tier) -> u64 {
+        match tier {
+            Tier::Quick => 30_000,
+            Tier::Thorough => 1_000_000,
+        }
+    }
+    fn one_run(&self, seed: u64, run: u64, tier: Tier, st: &mut Stats) -> (RunResult, Option<J>) {
+        let (r, c) = crate::scen_poll::one_run(seed, run, tier, st);
+        (r, c.map(|c| c.to_json()))
+    }
+    fn eval(&self, case: &J) -> Vec<Violation> {
+        crate::scen_poll::eval(&StreamCase::from_json(case))
+    }
+    fn minimise(&self, case: &J, sig: &str) -> J {
+        minimise(&StreamCase::from_json(case), sig, &crate::scen_poll::eval, 60000).to_json()
+    }
+    fn sample(&self, seed: u64, run: u64, tier: Tier) -> J {
+        let mut st = Stats::default();
+        let case = crate::scen_poll::generate(seed, run, tier, &mut st);
+        let ex = crate::scen_poll::execute(&case, &mut st);
+        let c = crate::scen_poll::materialise(&case, &ex);
+        let mut j = c.sample_json();
+        j["executor_choices"] = json!(c.exec.len());
+        j
+    }
+    fn evidence(&self, tier: Tier, seed: u64) -> Evidence {
+        let mut e = ev_base(
+            "C08",
+            tier,
+            seed,
+            "exploration",
+            "one run = 1..4 DltStreamReader tasks on one hand-written executor, each reading a seeded (possibly faulted) medium through a ScriptedPoll whose every poll_read result (Pending bursts with parked wakers, Ready(k), early EOF, rarely a hard error) is a recorded decision; the executor's choices (which woken task to poll, when a parked waker fires, double wakes, spurious polls) are recorded too. Oracle: the blocking reader over the same bytes with an always-ready source. distinct = distinct (media, decision scripts, executor choices) hash; non-trivial = some task has at least one complete record AND (a fragment boundary strictly inside the medium OR at least one Pending).",
+        );
+        e.assumptions = vec![
+            "no cancellation: the API documents itself as not cancel safe, futures are polled to completion".into(),
+            "no ErrorKind::Interrupted: C08 quantifies over Pending / Ready(k) only and futures' read_exact does not retry it".into(),
+            "the reference is the real blocking reader (C07 decides that one separately)".into(),
+        ];
+        e.harness_probes = vec!["runs_with_pending", "exec_spurious_polls", "exec_double_wakes", "runs_multi_task", "source_early_eof", "exec_wake_events"];
+        e.crate_probes = vec!["records_expected"];
+        e.step_keys = vec!["source_calls", "exec_steps"];
+        e
+    }
+}
+
+// ------------------------------------------------------------------------------------------ C10
+pub struct C10;
+impl Scenario for C10 {
+    fn prop(&self) -> &'static str {
+        "C10"
+    }
+    fn runs(&self, tier: Tier) -> u64 {
+        match tier {
+            Tier::Quick => 100_000,
+            Tier::Thorough => 10_000_000,
+        }
+    }
+    fn log_runs(&self, tier: Tier) -> u64 {
+        match tier {
+            Tier::Quick => 10_000,
+            Tier::Thorough => 500_000,
+        }
+    }
+    fn one_run(&self, seed: u64, run: u64, tier: Tier, st: &mut Stats) -> (RunResult, Option<J>) {
+        let (r, c) = crate::scen_stat::one_run(seed, run, tier, st);
+        (r, c.map(|c| c.to_json()))
+    }
+    fn eval(&self, case: &J) -> Vec<Violation> {
+        crate::scen_stat::eval(&StreamCase::from_json(case))
+    }
+    fn minimise(&self, case: &J, sig: &str) -> J {
+        minimise(&StreamCase::from_json(case), sig, &crate::scen_stat::eval, 60000).to_json()
+    }
+    fn sample(&self, seed: u64, run: u64, tier: Tier) -> J {
+        let mut st = Stats::default();
+        let case = crate::scen_stat::generate(seed, run, tier, &mut st);
+        let ex = crate::scen_stat::execute(&case, &mut st);
+        let mut c = case.clone();
+        c.script = ex.taken.clone();
+        c.sample_json()
+    }
+    fn evidence(&self, tier: Tier, seed: u64) -> Evidence {
+        let mut e = ev_base(
+            "C10",
+            tier,
+            seed,
+            "exploration",
+            "one run = a well-formed stream of 0..200 records with colliding ids (optionally truncated) collected (a) by a recording collector and (b) by StatisticInfoCollector, both through a ScriptedRead (fragmentation, Interrupted bursts, early EOF, one hard error); then split at record boundaries into 1..8 parts (empty parts allowed), each part collected separately, 0..2 StatisticInfo::new() identities added, and everything merged along a history drawn from the schedule stream (repeatedly merge one live value into another). Oracle: header decoder + Tally; merged result == whole-stream result as maps. distinct = (medium, decision script, history vector) hash; non-trivial = at least 2 records AND (a fragment boundary inside the medium OR more than one part).",
+        );
+        e.assumptions = vec![
+            "streams are well-formed (C10's quantifier); the only medium fault is truncation, after which only the records wholly before the cut are judged".into(),
+            "vector order of the statistics is not part of the property; results are compared as sorted maps".into(),
+        ];
+        e.fault_kinds = vec!["F-TRUNC"];
+        e.harness_probes = vec!["runs_with_interrupted", "runs_with_hard_error", "runs_with_early_eof", "F-TRUNC", "merges", "merge_empty_parts", "merge_identities", "merges_right_into_left_reversed"];
+        e.crate_probes = vec!["bucket_nonlog", "bucket_fatal", "bucket_error", "bucket_warn", "bucket_info", "bucket_debug", "bucket_verbose", "bucket_invalid"];
+        e.step_keys = vec!["source_calls", "merges"];
+        e
+    }
+}
+
+// ------------------------------------------------------------------- C03 C04 C05 C06 C16 (S-SLICE)
+pub struct Slice(pub Focus);
+impl Scenario for Slice {
+    fn prop(&self) -> &'static str {
+        self.0.id()
+    }
+    fn runs(&self, tier: Tier) -> u64 {
+        let q = match self.0 {
+            Focus::C03 => 300_000,
+            Focus::C04 => 300_000,
+            Focus::C05 => 60_000,
+            Focus::C06 => 200_000,
+            Focus::C16 => 250_000,
+        };
+        match tier {
+            Tier::Quick => q,
+            Tier::Thorough => q * 80,
+        }
+    }
+    fn log_runs(&self, tier: Tier) -> u64 {
+        self.runs(tier) / 10
+    }
+    fn one_run(&self, seed: u64, run: u64, tier: Tier, st: &mut Stats) -> (RunResult, Option<J>) {
+        let (r, c) = crate::scen_slice::one_run(self.0, seed, run, tier, st);
+        (r, c.map(|c| c.to_json()))
+    }
+    fn eval(&self, case: &J) -> Vec<Violation> {
+        crate::scen_slice::eval_for(self.0)(&StreamCase::from_json(case))
+    }
+    fn minimise(&self, case: &J, sig: &str) -> J {
+        let f = crate::scen_slice::eval_for(self.0);
+        minimise(&StreamCase::from_json(case), sig, &f, 60000).to_json()
+    }
+    fn sample(&self, seed: u64, run: u64, tier: Tier) -> J {
+        let mut st = Stats::default();
+        let case = crate::scen_slice::generate(self.0, seed, run, tier, &mut st);
+        let ex = crate::scen_slice::execute(&case, self.0, &mut st);
+        let mut c = case.clone();
+        c.script = ex.taken.clone();
+        let mut j = c.sample_json();
+        j["counters_of_this_run"] = json!(st.c.iter().map(|(k, v)| (k.to_string(), *v)).collect::<BTreeMap<String, u64>>());
+        j
+    }
+    fn evidence(&self, tier: Tier, seed: u64) -> Evidence {
+        let (level, rule, probes, crate_probes): (&'static str, &str, Vec<&'static str>, Vec<&'static str>) = match self.0 {
+            Focus::C03 => (
+                "exploration",
+                "one run = a seeded medium (records from the real writer and from the foreign-ECU stub, damaged by 0..6 faults of the whole catalogue incl. > 64 KiB tails, or arbitrary bytes) delivered through a ScriptedRead into a streaming slice consumer (dlt_message with and without filter, pattern resync), an indexer (dlt_consume_msg / skip_storage_header + random-access parses), a non-verbose decode stage (construct_arguments with a drawn signal list, dlt_zero_terminated_string over payload windows) and 'use' of every returned message (as_bytes, byte_len, Argument::len/as_bytes/valid, UTF-8 re-check). Every call is wrapped in catch_unwind; overflow checks and debug assertions are on. distinct = (medium, mode, delivery script) hash; non-trivial = at least one message returned AND (a delivery boundary inside the medium OR a fired fault).",
+                vec!["mode_any", "mode_payload", "mode_junk", "mode_clean", "mode_soup", "mode_dialect", "F-TAIL", "F-PFX=FFFF+tail", "nv_construct_calls", "nv_string_calls", "consume_calls", "search_calls", "items_used"],
+                vec!["parse_errors", "incomplete", "resyncs", "nv_construct_ok", "nv_construct_err", "filtered_out", "indexed"],
+            ),
+            Focus::C04 => (
+                "exploration",
+                "one run = a seeded medium with faults confined to the payload description (NOAR, type-info, 16-bit length prefixes, verbose bit, flips inside payloads; every length field intact) or with header faults (generic clauses only), plus junk in storage mode, consumed twice (without and with a drawn filter) by the streaming slice consumer under a scripted delivery, and walked by the indexer. After every single Ok: rest is a strict suffix, consumed == shift + storage header + LEN read from the bytes, FilteredOut(n) == LEN - headers; end to end: the consumer's verdict offsets equal an independent walk over the declared lengths. distinct = (medium, mode, delivery script) hash; non-trivial = at least one Ok AND (a delivery boundary inside the medium OR a fired fault).",
+                vec!["mode_payload", "mode_any", "mode_junk", "alignment_checks", "consume_calls", "walk_records", "F-PFX", "F-NOAR", "F-TI", "F-VERB"],
+                vec!["filtered_out", "parse_errors", "incomplete", "indexed"],
+            ),
+            Focus::C05 => (
+                "fault_enumeration",
+                "cut mode: one run = one well-formed record (real writer or foreign stub, up to ~64 KiB) and EVERY truncation offset 0..len-1 of it, each judged for dlt_message (no filter, and with the run's filter) and, in storage mode, dlt_consume_msg; evaluations counts the cuts. clean mode: a clean multi-record stream delivered by a scripted source into the streaming consumer, asserting 'incomplete with a safe hint' whenever the buffer head is a proper prefix of the next record. distinct = (record / medium, delivery script) hash; non-trivial = record longer than its fixed header (cut mode) or at least one record returned with a delivery boundary inside the medium (clean mode). Exhaustive per record over cut positions; records themselves are sampled.",
+                vec!["mode_cut", "mode_clean", "cut_in_fixed_header", "cut_in_optional_headers", "cut_in_payload", "dynamic_prefix_verdicts"],
+                vec!["incomplete_with_hint", "incomplete_without_hint", "cut_in_storage_header"],
+            ),
+            Focus::C06 => (
+                "exploration",
+                "one run = a storage-mode stream with pattern-free junk blocks (0..64 bytes, sometimes 4 KiB; biased to end in D / DL / DLT, to contain DLT\\0 and DDLT) before, between and after records, delivered through a ScriptedRead into the streaming consumer (pattern resync). On every buffer the consumer holds: forward_to_next_storage_header == naive first-match search (offset, remainder pointer); junk ++ m ++ s parses like m ++ s; every record wholly delivered is recovered in order exactly once. distinct = (medium, mode, delivery script) hash; non-trivial = at least one record recovered AND (a delivery boundary inside the medium OR a junk block present).",
+                vec!["mode_junk", "F-JUNK", "search_calls", "search_skipped_junk", "junk_blocks_judged", "junk_records_expected", "search_partial_pattern_at_end"],
+                vec!["resyncs", "junk_run_discarded"],
+            ),
+            Focus::C16 => (
+                "exploration",
+                "one run = a seeded faulted medium or a medium of foreign-ECU dialect records; every message the streaming consumer recovers is re-serialised with Message::as_bytes and, when the result has the length its own header declares, parsed back (must be identical, nothing left over) and serialised again (must give the same bytes); all such items are written onto a second medium that a fresh consumer reads back under a different delivery script. distinct = (medium, mode, delivery script) hash; non-trivial = at least one message recovered AND (a delivery boundary inside the medium OR a fired fault OR dialect input).",
+                vec!["mode_any", "mode_dialect", "salvage_checks", "salvaged_media", "rec_foreign", "rec_nettrace"],
+                vec!["salvage_precondition_fails", "items"],
+            ),
+        };
+        let mut e = ev_base(self.0.id(), tier, seed, level, rule);
+        e.assumptions = vec![
+            "inputs are valid streams plus injected faults (and a share of arbitrary bytes): deep states are reached cheaply, byte-soup states rarely; this is sampling, not a proof of panic-freedom".into(),
+            "expected values come from the bytes (header decoder, naive search, declared lengths) or from a second run of the real parser on a property-equivalent input, never from the producer's in-memory Message".into(),
+        ];
+        e.harness_probes = probes;
+        e.crate_probes = crate_probes;
+        e.step_keys = vec!["source_calls", "parse_calls", "consume_calls", "search_calls"];
+        e
+    }
+}
+
 pub fn all() -> Vec<Box<dyn Scenario>> {
-    vec![Box::new(C07)]
+    vec![
+        Box::new(Slice(Focus::C03)),
+        Box::new(Slice(Focus::C04)),
+        Box::new(Slice(Focus::C05)),
+        Box::new(Slice(Focus::C06)),
+        Box::new(C07),
+        Box::new(C08),
+        Box::new(C10),
+        Box::new(Slice(Focus::C16)),
+    ]
 }
 
 /// `dltsim selftest determinism`: every scenario, a sample of runs executed twice; history hashes
